@@ -230,14 +230,15 @@ pub fn run(prop: &str, tier: &str, replay: Option<&str>) -> i32 {
                 Err(p) => f.push(Finding::new("KEY-LOAD-PANIC", &what, p)),
                 Ok(Err(e)) => {
                     out.digest = fnv(format!("{:?}", std::mem::discriminant(&e)).as_bytes());
-                    // fixtures without the optional embedded public key ("np"): a back end may refuse them (ring does)
-                    if let Some(w) = want.filter(|_| !z.name.contains("np.")) {
+                    // fixtures without the optional embedded public key ("np") or without any curve ("bare"): a back end may refuse them (ring does)
+                    if let Some(w) = want.filter(|_| !z.name.contains("np.") && !z.name.contains("bare")) {
                         f.push(Finding::new("KEY-LOAD-REFUSED", &what, format!("a {:?} {:?} key should load as {} but: {:?}", z.kind, z.format, w.name(), e)));
                     }
                 }
                 Ok(Ok(kp)) => {
                     out.digest = fnv(kp.der_bytes()) ^ alg_of(kp.algorithm()).map(|a| a as u64 + 1).unwrap_or(0);
                     match want {
+                        None if z.name.contains("bare") && c.2.is_some() => {}
                         None => f.push(Finding::new("KEY-LOAD-MISTYPED", &what, format!("a {:?} {:?} key must not load as {:?} here but did, as {:?}", z.kind, z.format, c.2.map(|a| a.name()), kp.algorithm()))),
                         Some(w) => check_loaded(&kp, w, &z.spki, &z.raw_pub, &what, &mut f),
                     }
@@ -296,6 +297,54 @@ pub fn run(prop: &str, tier: &str, replay: Option<&str>) -> i32 {
                 }
             }
             out.findings = f;
+            out
+        });
+        rep.add(sec);
+    }
+    // 1c. PEM texts holding more than one block: the first private-key block is the key (what every PEM reader of
+    // private keys does), or the text is refused; never a later key, never a mix
+    {
+        let loadable: Vec<&ZooKey> = zoo.iter().filter(|z| z.format == KeyFormat::Pkcs8 && backend_supports(z.kind, z.format) && !z.kind.is_slow() && !z.name.contains("np.")).collect();
+        let mut cases: Vec<(usize, usize, usize)> = Vec::new();
+        for a in 0..loadable.len() {
+            for b in 0..loadable.len() {
+                if a != b {
+                    for shape in 0..4 {
+                        cases.push((a, b, shape));
+                    }
+                }
+            }
+        }
+        let cert_pem = {
+            let ed = zoo.iter().find(|z| z.kind == KeyKind::Ed25519).unwrap();
+            rcgen::CertificateParams::default().self_signed(&rc_load(ed, Alg::Ed25519).unwrap()).unwrap().pem()
+        };
+        let sec = Section::new("pem/several blocks", "for every ordered pair of different loadable fixture keys A, B: the texts A+B, A+certificate+B, A+B+A and A with B's block in front of a certificate-first text through from_pem and from_pem_and_sign_algo: the loaded key is A, or the text is refused");
+        run::sweep_cases(&sec, &cases, &|c| format!("{} then {} shape {}", loadable[c.0].name, loadable[c.1].name, c.2), &|c| {
+            let (a, b) = (loadable[c.0], loadable[c.1]);
+            let pa = refmodel::pem::encode("PRIVATE KEY", &a.der);
+            let pb = refmodel::pem::encode("PRIVATE KEY", &b.der);
+            let text = match c.2 {
+                0 => format!("{}{}", pa, pb),
+                1 => format!("{}{}{}", pa, cert_pem, pb),
+                2 => format!("{}{}{}", pa, pb, pa),
+                _ => format!("# two keys\n{}\n{}", pa, pb),
+            };
+            let mut out = Outcome::default();
+            out.transitions = 2;
+            let mut judge_one = |what: &str, r: Result<Result<KeyPair, rcgen::Error>, String>| match r {
+                Err(p) => out.findings.push(Finding::new("KEY-LOAD-PANIC", what, p)),
+                Ok(Err(_)) => {}
+                Ok(Ok(kp)) => {
+                    out.digest ^= fnv(kp.der_bytes());
+                    if kp.der_bytes() != a.raw_pub.as_slice() {
+                        let which = if kp.der_bytes() == b.raw_pub.as_slice() { "the SECOND key of the text" } else { "a key that is neither of the two" };
+                        out.findings.push(Finding::new("KEY-PEM-WRONG-BLOCK", what, format!("loaded {}", which)));
+                    }
+                }
+            };
+            judge_one("KeyPair::from_pem", guarded(|| KeyPair::from_pem(&text)));
+            judge_one("KeyPair::from_pem_and_sign_algo", guarded(|| KeyPair::from_pem_and_sign_algo(&text, rc_alg(a.kind.natural_alg()).unwrap())));
             out
         });
         rep.add(sec);
